@@ -296,7 +296,7 @@ static volatile int      verif_seg_state = 0;
 static const char *      verif_seg_path = NULL;
 static volatile uint32_t verif_seg_tid_next = 0;
 static __thread uint32_t verif_seg_tid = 0;
-EB_API void svt_verif_seg_trace_flush(void) {
+__attribute__((visibility("default"))) void svt_verif_seg_trace_flush(void) {
     if (verif_seg_state != 2 || !verif_seg_path) return;
     pthread_mutex_lock(&verif_seg_mx);
     FILE *f = fopen(verif_seg_path, "w");
